@@ -622,6 +622,10 @@ class MinimizerScipyOptimize(MinimizerBase):
         _y = np.zeros(size)
         self._x0 = self._par_val
         for i in range(size):
+            # start from a point that satisfies the constraint: a first step that only restores feasibility can leave the
+            # function value unchanged, which SLSQP takes for convergence
+            self._x0 = np.array(self._x0, dtype=float)
+            self._x0[_par_id] = _par[i]
             _y[i] = self._calc_fun_with_constraints([{"type": "eq", "fun": lambda x: x[_par_id] - _par[i]}], continuous_x0=True)
         self._load_state()
         return np.asarray([_par, _y - _y_offset]), _arrow_specs
